@@ -995,6 +995,11 @@ func isErrorCtx(stack []ast.Node) bool {
 				strings.HasPrefix(nm, "Print") || isPkgCall(n, "template", "New") {
 				return true
 			}
+			// text that only becomes a compiled regular expression (a *regexp.Regexp is not text; its String() would be a call
+			// of unknown provenance at its own site): acceptsAbsent of reader/prof/transpiler compiles "^(?:" + val + ")$"
+			if isPkgCall(n, "regexp", "Compile") || isPkgCall(n, "regexp", "MustCompile") || isPkgCall(n, "regexp", "MatchString") {
+				return true
+			}
 			if s, ok := n.Fun.(*ast.SelectorExpr); ok {
 				if id, ok := s.X.(*ast.Ident); ok && (id.Name == "logger" || id.Name == "log") {
 					return true
